@@ -1046,7 +1046,8 @@ class t2listing(object):
                             if revkey in tables[tablename].row_name:
                                 index = tables[tablename]._row[revkey]
                                 reverse = True
-                    if index is not None:
+                    # (a column the table does not have is an invalid specification too)
+                    if index is not None and h in tables[tablename]._col:
                         if tables[tablename].row_line:
                             index = tables[tablename].row_line[index] # find line index if needed
                         ishort = None
